@@ -186,7 +186,7 @@ def gen_layered_world(rng, i, two_layer=None, want_files=True, small=False, allo
                 read["name"] = None            # drop-ins only
             nlayers = 3
         else:
-            nlayers = rng.pick([1, 2, 3, 3, 3, 4])
+            nlayers = rng.pick([1, 2, 3, 3, 3, 4, 4, 6])
             read["opts"]["parsing_dirs"] = [R + "/%s" % d for d in rng.sample(["usr/lib/p", "run/p", "etc/p", "opt/p", "v", "e", "l3"], nlayers)]
             read["project"] = rng.pick(["proj", None])
             read["usr_subdir"] = rng.pick(["/usr/lib", None])
